@@ -599,6 +599,23 @@ fn run_case(seed: u64, idx: u64, _tier: Tier, out: &mut CaseOut) {
     if ast::has_tag(&doc, "table") {
         out.inc("docs_with_table");
     }
+    // the same text must come out of a second conversion of a DOM that was already
+    // converted once (applications keep the DOM and re-render)
+    if rng.chance(1, 6) {
+        if let Outcome::Ok((_, Outcome::Ok(s2))) = render_dom_twice(&cfg, &input, w) {
+            out.evals += 2;
+            out.inc("second_conversion_of_kept_dom");
+            let before = out.violations.len();
+            check_preserved(out, &dom, &input, w, &cfg, &s2, mutated);
+            if out.violations.len() > before {
+                let v = &mut out.violations[before];
+                if !v.sig.contains("min_wrap_width(0)") && render_string(&cfg, &input, w).ok().map(|s| s != &s2).unwrap_or(false) {
+                    v.sig = format!("{}:second-conversion-of-kept-dom", v.sig);
+                }
+                return;
+            }
+        }
+    }
     for &width in &[w, pick_width(&mut rng, 200)] {
         let t = render_string_traced(&cfg, &input, width);
         out.evals += 1;
